@@ -88,6 +88,12 @@ def catalog():
         for sh in ((), (3,), (2, 3), (2, 1, 2)):
             add("unary", "%s%s" % (name, sh), [sh], (lambda f: lambda x: f(x))(f), [dom])
         add("unary", "%s where" % name, [(2, 3)], (lambda f: lambda x: f(x, where=np.array([True, False, True]), out=mg.zeros((2, 3), dtype="float64")) if name in UFUNCS else f(x))(f), [dom])
+        sing = {"log": 0.0, "log2": 0.0, "log10": 0.0, "sqrt": 0.0, "reciprocal": 0.0, "cbrt": 0.0, "log1p": -1.0, "arcsin": 1.0, "arccos": -1.0, "arctanh": 1.0, "arccosh": 1.0}
+        if name in sing and name in UFUNCS:
+            # f(x, where=x_is_safe): the masked-out elements sit at a point where the derivative formula is not finite; they get gradient 0, not NaN
+            add("unary", "%s where, masked-out elements at a singular point" % name, [(2, 3)],
+                (lambda f: lambda x: f(x, where=np.array([True, False, True]), out=mg.zeros((2, 3), dtype="float64")))(f), [dom],
+                prep=_plant([(0, (0, 1), sing[name]), (0, (1, 1), sing[name])]), only={"vjp", "alias", "gradtype"})
         add("unary", "%s strided" % name, [(2, 6)], (lambda f: lambda x: f(x[:, ::2]))(f), [dom])
         add("unary", "%s transposed" % name, [(3, 2)], (lambda f: lambda x: f(x.T))(f), [dom])
     for name, f, dom in (("relu", A.relu, "any"), ("sigmoid", A.sigmoid, "any"), ("tanh_act", A.tanh, "any"), ("selu", A.selu, "any"), ("soft_sign", A.soft_sign, "any"),
@@ -116,6 +122,10 @@ def catalog():
         add("binary", "%s where" % name, [(2, 3), (3,)], (lambda f: lambda a, b: f(a, b, where=np.array([[True, False, True], [False, False, True]]), out=mg.zeros((2, 3), dtype="float64")))(f), list(doms))
         add("binary", "%s scalar right" % name, [(2, 3)], (lambda f: lambda a: f(a, 1.7))(f), [doms[0]])
         add("binary", "%s scalar left" % name, [(2, 3)], (lambda f: lambda b: f(1.7, b))(f), [doms[1]])
+    add("binary", "divide where, masked-out divisor is zero", [(2, 3), (3,)], lambda a, b: mg.divide(a, b, where=np.array([True, False, True]), out=mg.zeros((2, 3), dtype="float64")), ["any", "pos"],
+        prep=_plant([(1, (1,), 0.0)]), only={"vjp", "alias", "gradtype"})
+    add("binary", "power where, masked-out base is zero", [(2, 3), (3,)], lambda a, b: mg.power(a, b, where=np.array([[True, False, True], [True, False, True]]), out=mg.zeros((2, 3), dtype="float64")), ["pos", "unit"],
+        prep=_plant([(0, (0, 1), 0.0), (0, (1, 1), 0.0)]), only={"vjp", "alias", "gradtype"})
     # where= WITHOUT out=: masked-out positions of the result are uninitialised memory, so these entries are used for the aliasing oracle only
     for name in ("add", "subtract", "multiply", "maximum"):
         f = getattr(mg, name)
